@@ -192,7 +192,7 @@ def replay(case, ctx):
 
 
 def plan(tier, seed):
-    n, per = (16, 250) if tier == "quick" else (16, 20000)
+    n, per = (16, 1200) if tier == "quick" else (16, 20000)
     return [{"kind": "fasta", "n": per} for _ in range(n)]
 
 
